@@ -142,11 +142,12 @@ class Req:
 
 
 class Ctx:
-    def __init__(self, sp, R, n_handles, origins, methods, kinds, precache):
+    def __init__(self, sp, R, n_handles, origins, methods, kinds, precache, omit=False):
         self.sp = sp
         self.R = R
         self.n = n_handles
         self.origins, self.methods, self.kinds, self.precache = origins, methods, kinds, precache
+        self.omit = omit            # clear flags are three-valued: omitted / False / True
         self.handles = [None] * n_handles
         self.loads = [0] * n_handles            # observed load() calls
         self.mcount = [0] * n_handles           # model: expected load() calls
@@ -249,8 +250,20 @@ class Ctx:
         k = self.pos
         r = Req()
         r.j = sp.choose(self.n, 'target[%d]' % k)
-        r.cc = bool(sp.flag('clear_current[%d]' % k))
-        r.cn = bool(sp.flag('clear_next[%d]' % k))
+        if self.omit:
+            # None = the argument is not passed at all (must behave exactly like False)
+            r.cc_arg = sp.pick([None, False, True], 'clear_current[%d]' % k)
+            r.cn_arg = sp.pick([None, False, True], 'clear_next[%d]' % k)
+        else:
+            r.cc_arg = bool(sp.flag('clear_current[%d]' % k))
+            r.cn_arg = bool(sp.flag('clear_next[%d]' % k))
+        r.cc = r.cc_arg is True
+        r.cn = r.cn_arg is True
+        r.kw = {}
+        if r.cc_arg is not None:
+            r.kw['clear_current'] = r.cc_arg
+        if r.cn_arg is not None:
+            r.kw['clear_next'] = r.cn_arg
         r.origin = sp.pick(self.origins, 'origin[%d]' % k)
         r.method = sp.pick(self.methods, 'method[%d]' % k)
         if self.handles[r.j] is None:
@@ -269,9 +282,15 @@ class Ctx:
         r.E = None
         r.seq = next(self.seq)
         r.frame = self.frames
-        sp.note('frame %d: request %d from %s of %r: %s(h%d, clear_current=%s, clear_next=%s)' % (
+        sp.note('frame %d: request %d from %s of %r: %s(h%d%s)' % (
             self.frames, self.pos, r.origin, inst, 'switch' if r.method == 'switch' else 'raise SwitchWorld',
-            j, r.cc, r.cn))
+            j, ''.join(', %s=%s' % kv for kv in sorted(r.kw.items()))))
+        if r.cc_arg is None:
+            sp.cover('flag-omitted-clear_current')
+        if r.cn_arg is None:
+            sp.cover('flag-omitted-clear_next')
+        if len(r.kw) < 2:
+            sp.cover('flag-omitted')
         # ---- model
         r.target_cleared = (r.cn and self.mcached[j]) or (r.cc and j == c)
         if r.cc:
@@ -320,12 +339,12 @@ class Ctx:
         self.coro_started = False
         # ---- the call
         if r.method == 'raw':
-            raise desper.SwitchWorld(h, r.cc, r.cn)
+            raise desper.SwitchWorld(h, **r.kw)
         try:
             if r.origin == 'processor':
-                desper.switch(h, clear_current=r.cc, clear_next=r.cn, from_world=inst.world)
+                desper.switch(h, from_world=inst.world, **r.kw)
             else:
-                desper.switch(h, clear_current=r.cc, clear_next=r.cn)
+                desper.switch(h, **r.kw)
         finally:
             if not r.self_same:
                 W.away = True
@@ -403,9 +422,36 @@ class Ctx:
                                  what, E, r.held, got))
 
 
+class BareLoop(desper.Loop):
+    def loop(self):
+        raise desper.Quit()
+
+
+class CountingHandle(desper.Handle):
+    n = 0
+
+    def load(self):
+        self.n += 1
+        return desper.World()
+
+
+def base_loop_defaults(sp):
+    """Loop.switch of the base class with the clear flags omitted keeps the cached instances."""
+    bl = BareLoop()
+    ha, hb = CountingHandle(), CountingHandle()
+    wa, wb = ha(), hb()
+    bl.switch(ha)
+    bl.switch(hb)
+    bl.switch(hb)
+    sp.check(ha.n == 1 and hb.n == 1 and ha.cached and ha() is wa and bl.current_world is wb
+             and bl.current_world_handle is hb, 'base-switch-keeps-instance',
+             'Loop.switch(handle) without clear flags: handles loaded %d and %d times' % (ha.n, hb.n))
+
+
 def h_switch(sp, R=2, n_handles=2, origins=('processor', 'on_update', 'coroutine'), methods=('switch', 'raw'),
-             kinds=('muted', 'plain'), precache=True):
-    ctx = Ctx(sp, R, n_handles, list(origins), list(methods), list(kinds), precache)
+             kinds=('muted', 'plain'), precache=True, omit=False):
+    ctx = Ctx(sp, R, n_handles, list(origins), list(methods), list(kinds), precache, omit)
+    base_loop_defaults(sp)
     loop = desper.SimpleLoop(time_function=itertools.count().__next__)
     ctx.loop = loop
     saved = desper.default_loop
@@ -419,6 +465,12 @@ def h_switch(sp, R=2, n_handles=2, origins=('processor', 'on_update', 'coroutine
         ctx.cur_inst = ctx.inst_of(loop.current_world)
         ctx.minst[0] = ctx.cur_inst
         sp.check(ctx.cur_inst is not None and ctx.loads[0] == 1, 'initial-switch', 'loop.switch(h0)')
+        # seat it a second time, flags omitted: neither the current nor the next handle (both h0) may be cleared
+        loop.switch(h0)
+        sp.check(ctx.loads[0] == 1 and loop.current_world is ctx.cur_inst.world and h0.cached
+                 and h0() is ctx.cur_inst.world, 'direct-switch-keeps-instance',
+                 'loop.switch(h0) without clear flags on the seated handle: h0 loaded %d times' % ctx.loads[0])
+        sp.cover('flag-omitted-direct')
         try:
             loop.start()
         except HarnessOverrun:
@@ -448,13 +500,20 @@ def h_switch(sp, R=2, n_handles=2, origins=('processor', 'on_update', 'coroutine
 ALL_TAGS = ['origin-processor', 'origin-on_update', 'origin-coroutine', 'method-switch', 'method-raw',
             'switch-clear_next-cached', 'switch-clear_next-uncached', 'switch-clear_current', 'switch-self',
             'switch-self-cleared', 'reenter-held', 'raw-clear', 'left-handle-cleared', 'entered-fresh-muted', 'entered-fresh-plain',
-            'precached-muted', 'precached-plain']
+            'precached-muted', 'precached-plain', 'flag-omitted-direct']
+OMIT_TAGS = ['flag-omitted', 'flag-omitted-clear_current', 'flag-omitted-clear_next']
 
 HARNESSES = {
     'switch': dict(fn=h_switch, nontrivial=[t for t in ALL_TAGS if t.startswith(('switch-', 'reenter', 'raw-clear'))],
                    required=ALL_TAGS),
     'switch1': dict(fn=h_switch, nontrivial=[t for t in ALL_TAGS if t.startswith(('switch-', 'raw-clear'))],
                     required=[t for t in ALL_TAGS if t != 'reenter-held']),
+    'switch1-omit': dict(fn=h_switch, nontrivial=[t for t in ALL_TAGS if t.startswith(('switch-', 'raw-clear'))],
+                         required=[t for t in ALL_TAGS if t != 'reenter-held'] + OMIT_TAGS),
+    'switch-proc-omit': dict(fn=h_switch,
+                             nontrivial=[t for t in ALL_TAGS if t.startswith(('switch-', 'reenter', 'raw-clear'))],
+                             required=[t for t in ALL_TAGS if t not in ('origin-on_update', 'origin-coroutine')]
+                             + OMIT_TAGS),
     'switch-proc': dict(fn=h_switch,
                         nontrivial=[t for t in ALL_TAGS if t.startswith(('switch-', 'reenter', 'raw-clear'))],
                         required=[t for t in ALL_TAGS if t not in ('origin-on_update', 'origin-coroutine')]),
@@ -472,6 +531,7 @@ TIERS = {
     'quick': [
         ('switch', dict(R=2, n_handles=2)),
         ('switch1', dict(R=1, n_handles=2)),
+        ('switch1-omit', dict(R=1, n_handles=2, omit=True)),
     ],
     'thorough': [
         ('switch', dict(R=2, n_handles=3)),
@@ -479,6 +539,8 @@ TIERS = {
         ('switch-proc', dict(R=3, n_handles=2, origins=('processor',))),
         ('switch-only', dict(R=3, n_handles=3, origins=('processor',), methods=('switch',))),
         ('switch-proc-np', dict(R=3, n_handles=3, origins=('processor',), precache=False)),
+        ('switch1-omit', dict(R=1, n_handles=3, omit=True)),
+        ('switch-proc-omit', dict(R=2, n_handles=2, origins=('processor',), omit=True)),
     ],
 }
 BUDGET_S = {'quick': 120, 'thorough': 1500}
@@ -498,12 +560,16 @@ RULE = ('one evaluation = one feasible path = one complete frame script with its
         '= the script used a clear flag, switched to the current handle, or re-entered a world that held events')
 BOUNDS = {
     'quick': '2 handles, scripts of exactly 1 and 2 requests (all origins, both methods, both clear flags, both '
-             'handle kinds, cached or not)',
+             'handle kinds, cached or not); 1 request with three-valued clear flags (omitted / False / True)',
     'thorough': '3 handles x 1 and 2 requests (everything); 2 handles x 3 requests issued from processors; 3 handles '
                 'x 3 requests, switch() from processors; 3 handles x 3 requests from processors, both methods, no '
-                'handle cached beforehand',
+                'handle cached beforehand; three-valued clear flags: 3 handles x 1 request, 2 handles x 2 requests '
+                'from processors',
 }
 ASSUMPTIONS = [
+    'a clear flag that is not passed at all (to desper.switch, SwitchWorld or Loop.switch) must behave exactly like '
+    'False: the cached instance is kept and nothing is loaded again (omit=True entries make every flag three-valued; '
+    'every path also seats the initial world twice through loop.switch(h0) and drives a bare Loop subclass)',
     'raw `raise SwitchWorld(...)` bypasses the events: no on_switch_in/out expectations and the world that was left '
     'is not expected to be silent; only frame abandonment, target, freshness and load counts are checked',
     'the `to` argument of on_switch_out is not checked when a clear flag replaces the target instance '
